@@ -100,3 +100,98 @@ pub fn handler_flag(op: &str, flag: bool) -> String {
     }
     format!("before={} after={}", before, h.post_execution.reward_beneficiary.is_some())
 }
+
+// ---------------------------------------------------------------- has_storage through the database layers
+use revm::db::State as BlockState;
+use revm::primitives::db::{DatabaseComponents, WrapDatabaseRef};
+use revm::{Database, DatabaseRef};
+
+/// A source that answers `true` to has_storage for every address (both trait flavours).
+#[derive(Default, Clone)]
+struct HasStorageSource;
+impl DatabaseRef for HasStorageSource {
+    type Error = core::convert::Infallible;
+    fn basic_ref(&self, _a: Address) -> Result<Option<AccountInfo>, Self::Error> {
+        Ok(None)
+    }
+    fn code_by_hash_ref(&self, _h: B256) -> Result<Bytecode, Self::Error> {
+        Ok(Bytecode::default())
+    }
+    fn has_storage_ref(&self, _a: Address) -> Result<bool, Self::Error> {
+        Ok(true)
+    }
+    fn storage_ref(&self, _a: Address, _i: U256) -> Result<U256, Self::Error> {
+        Ok(U256::from(7))
+    }
+    fn block_hash_ref(&self, _n: u64) -> Result<B256, Self::Error> {
+        Ok(B256::ZERO)
+    }
+}
+impl Database for HasStorageSource {
+    type Error = core::convert::Infallible;
+    fn basic(&mut self, a: Address) -> Result<Option<AccountInfo>, Self::Error> {
+        self.basic_ref(a)
+    }
+    fn code_by_hash(&mut self, h: B256) -> Result<Bytecode, Self::Error> {
+        self.code_by_hash_ref(h)
+    }
+    fn has_storage(&mut self, _a: Address) -> Result<bool, Self::Error> {
+        Ok(true)
+    }
+    fn storage(&mut self, a: Address, i: U256) -> Result<U256, Self::Error> {
+        self.storage_ref(a, i)
+    }
+    fn block_hash(&mut self, n: u64) -> Result<B256, Self::Error> {
+        self.block_hash_ref(n)
+    }
+}
+impl revm::primitives::db::State for HasStorageSource {
+    type Error = core::convert::Infallible;
+    fn basic(&mut self, a: Address) -> Result<Option<AccountInfo>, Self::Error> {
+        self.basic_ref(a)
+    }
+    fn code_by_hash(&mut self, h: B256) -> Result<Bytecode, Self::Error> {
+        self.code_by_hash_ref(h)
+    }
+    fn storage(&mut self, a: Address, i: U256) -> Result<U256, Self::Error> {
+        self.storage_ref(a, i)
+    }
+}
+impl revm::primitives::db::StateRef for HasStorageSource {
+    type Error = core::convert::Infallible;
+    fn basic(&self, a: Address) -> Result<Option<AccountInfo>, Self::Error> {
+        self.basic_ref(a)
+    }
+    fn code_by_hash(&self, h: B256) -> Result<Bytecode, Self::Error> {
+        self.code_by_hash_ref(h)
+    }
+    fn storage(&self, a: Address, i: U256) -> Result<U256, Self::Error> {
+        self.storage_ref(a, i)
+    }
+}
+impl revm::primitives::db::BlockHash for HasStorageSource {
+    type Error = core::convert::Infallible;
+    fn block_hash(&mut self, _n: u64) -> Result<B256, Self::Error> {
+        Ok(B256::ZERO)
+    }
+}
+impl revm::primitives::db::BlockHashRef for HasStorageSource {
+    type Error = core::convert::Infallible;
+    fn block_hash(&self, _n: u64) -> Result<B256, Self::Error> {
+        Ok(B256::ZERO)
+    }
+}
+
+pub fn has_storage_layer(layer: &str) -> String {
+    let a = TARGET;
+    let ans = match layer {
+        "WrapDatabaseRef:Database" => WrapDatabaseRef(HasStorageSource).has_storage(a).unwrap(),
+        "DatabaseComponents:Database" => DatabaseComponents { state: HasStorageSource, block_hash: HasStorageSource }.has_storage(a).unwrap(),
+        "DatabaseComponents:DatabaseRef" => DatabaseComponents { state: HasStorageSource, block_hash: HasStorageSource }.has_storage_ref(a).unwrap(),
+        "CacheDB:Database" => CacheDB::new(HasStorageSource).has_storage(a).unwrap(),
+        "CacheDB:DatabaseRef" => CacheDB::new(HasStorageSource).has_storage_ref(a).unwrap(),
+        "State:Database" => BlockState::builder().with_database(HasStorageSource).build().has_storage(a).unwrap(),
+        _ => panic!("unknown layer"),
+    };
+    format!("underlying=true answer={ans}")
+}
